@@ -223,5 +223,11 @@ func (state *RuntimeState) getStorageDataFromStorageStringDataJWT(serializedToke
 		err = errors.New("invalid JWT values")
 		return rvalue, err
 	}
+	// The expiration column of the database row is not signed: the signed
+	// expiration is the one that counts.
+	if inboundJWT.Expiration < time.Now().Unix() {
+		err = errors.New("expired storage JWT")
+		return rvalue, err
+	}
 	return inboundJWT, nil
 }
